@@ -168,6 +168,12 @@ impl Watchexec {
 			);
 			tasks.spawn(error_hook(er_r, config.error_handler.clone()).map_ok(|()| "error"));
 
+			// A worker failing to send a runtime error means the error hook has ended (it owns the
+			// receiver), most likely with the critical error that is the actual cause. The join set
+			// may yield the worker's failure first: hold it until the hook's own result is in.
+			let mut error_hook_ended = false;
+			let mut send_failure = None;
+
 			while let Some(Ok(res)) = tasks.join_next().await {
 				match res {
 					Ok("action") => {
@@ -176,16 +182,34 @@ impl Watchexec {
 					}
 					Ok(task) => {
 						debug!(task, "worker exited");
+						if task == "error" {
+							error_hook_ended = true;
+							if send_failure.is_some() {
+								break;
+							}
+						}
 					}
 					Err(CriticalError::Exit) => {
 						trace!("got graceful exit request via critical error, erasing the error");
+						error_hook_ended = true;
+						if send_failure.is_some() {
+							break;
+						}
 						// Close event channel to signal worker task to stop
 						ev_s.close();
+					}
+					Err(e @ CriticalError::ErrorChannelSend(_)) if !error_hook_ended => {
+						debug!(%e, "worker could not send runtime error, waiting for error hook result");
+						send_failure.get_or_insert(e);
 					}
 					Err(e) => {
 						return Err(e);
 					}
 				}
+			}
+
+			if let Some(e) = send_failure {
+				return Err(e);
 			}
 
 			debug!("main task graceful exit");
